@@ -139,35 +139,36 @@ theorem soxrInput_le (o : Obj) (inNull : Bool) (len : Nat) (c c' : Ctx) (o' : Ob
           obtain ⟨_, c1, _, h⟩ := h
           rw [pure_ok] at h; obtain ⟨h1, -⟩ := h; cases h1; omega
 
+theorem processCore_le (fuel : Nat) (o1 : Obj) (inNull outNull : Bool) (ilen olen : Nat) (c c' : Ctx) (o' : Obj)
+    (idone odone : Nat) (h : processCore fuel o1 inNull outNull ilen olen c = .ok (o', idone, odone) c') :
+    idone ≤ ilen ∧ odone ≤ olen := by
+  unfold processCore at h
+  split at h
+  · rw [pure_ok] at h; obtain ⟨h1, -⟩ := h; cases h1; exact ⟨Nat.le_refl _, Nat.zero_le _⟩
+  · simp only [bind_ok] at h
+    obtain ⟨⟨o1', i1⟩, c1, hi, h⟩ := h
+    obtain ⟨⟨o2, d2⟩, c2, ho, h⟩ := h
+    rw [pure_ok] at h; obtain ⟨h1, -⟩ := h; cases h1
+    refine ⟨?_, soxrOutput_le _ _ _ _ _ _ _ _ ho⟩
+    split at hi
+    · exact soxrInput_le _ _ _ _ _ _ _ hi
+    · rw [pure_ok] at hi; obtain ⟨h1, -⟩ := hi; cases h1; exact Nat.zero_le _
+
+theorem ilenOf_le (o : Obj) (inNull : Bool) (ilen0 : BitVec 64) (olen : Nat) :
+    ilenOf o inNull ilen0 olen ≤ (decodeIlen ilen0).2.toNat := by
+  unfold ilenOf
+  split
+  · exact Nat.zero_le _
+  · exact iForO_le _ _ _
+
 /-- **`soxr_process`: `idone ≤ ilen0` (decoded) and `odone ≤ olen`.** -/
 theorem soxrProcess_le (fuel : Nat) (o : Obj) (inNull : Bool) (ilen0 : BitVec 64) (outNull : Bool) (olen : Nat)
     (c c' : Ctx) (o' : Obj) (idone odone : Nat)
     (h : soxrProcess fuel o inNull ilen0 outNull olen c = .ok (o', idone, odone) c') :
     idone ≤ (decodeIlen ilen0).2.toNat ∧ odone ≤ olen := by
   unfold soxrProcess at h
-  cases inNull with
-  | true =>
-    simp only [if_true] at h
-    split at h
-    · rw [pure_ok] at h; obtain ⟨h1, -⟩ := h; cases h1; exact ⟨Nat.zero_le _, Nat.zero_le _⟩
-    · simp only [bind_ok] at h
-      obtain ⟨⟨o1, i1⟩, c1, hi, h⟩ := h
-      obtain ⟨⟨o2, d2⟩, c2, ho, h⟩ := h
-      rw [pure_ok] at h; obtain ⟨h1, -⟩ := h; cases h1
-      simp only [bne_self_eq_false, Bool.false_eq_true, if_false] at hi
-      rw [pure_ok] at hi; obtain ⟨h1, -⟩ := hi; cases h1
-      exact ⟨Nat.zero_le _, soxrOutput_le _ _ _ _ _ _ _ _ ho⟩
-  | false =>
-    simp only [Bool.false_eq_true, if_false, Bool.and_false] at h
-    simp only [bind_ok] at h
-    obtain ⟨⟨o1, i1⟩, c1, hi, h⟩ := h
-    obtain ⟨⟨o2, d2⟩, c2, ho, h⟩ := h
-    rw [pure_ok] at h; obtain ⟨h1, -⟩ := h; cases h1
-    refine ⟨?_, soxrOutput_le _ _ _ _ _ _ _ _ ho⟩
-    have hil := iForO_le olen o.ioRatio (decodeIlen ilen0).2.toNat
-    split at hi
-    · exact Nat.le_trans (soxrInput_le _ _ _ _ _ _ _ hi) hil
-    · rw [pure_ok] at hi; obtain ⟨h1, -⟩ := hi; cases h1; exact Nat.zero_le _
+  obtain ⟨h1, h2⟩ := processCore_le _ _ _ _ _ _ _ _ _ _ _ h
+  exact ⟨Nat.le_trans h1 (ilenOf_le o inNull ilen0 olen), h2⟩
 
 /-! ## `src_process`, `src_callback_read`, `src_simple` -/
 
